@@ -107,6 +107,35 @@ pub fn run_worker<E: Engine>(
     out: &Path,
 ) {
     let known = load_known(prop);
+    // watchdog: a case that never returns (possible only when the code under test is broken
+    // so badly that a call which must complete blocks for ever) is reported as a HANG,
+    // which the parent treats as inconclusive (exit 2), never as a violation.
+    let progress = std::sync::Arc::new(std::sync::atomic::AtomicU64::new(0));
+    {
+        let progress = progress.clone();
+        let out = out.to_path_buf();
+        let limit: u64 = std::env::var("VERIF_HANG_SECS").ok().and_then(|s| s.parse().ok()).unwrap_or(60);
+        std::thread::spawn(move || {
+            let mut last = u64::MAX;
+            let mut idle = 0u64;
+            loop {
+                std::thread::sleep(std::time::Duration::from_secs(1));
+                let p = progress.load(std::sync::atomic::Ordering::Relaxed);
+                if p == last {
+                    idle += 1;
+                } else {
+                    idle = 0;
+                    last = p;
+                }
+                if idle >= limit {
+                    let cur = std::fs::read_to_string(out.with_extension("cur")).unwrap_or_default();
+                    let res = json!({"worker": worker, "evaluations": p, "hang": cur.trim(), "nontrivial": [], "classes": {}, "samples": [], "inconclusive": 1, "known": {}, "other": {}, "failure": null});
+                    let _ = std::fs::write(&out, serde_json::to_vec(&res).unwrap());
+                    std::process::exit(3);
+                }
+            }
+        });
+    }
     let stats = RefCell::new(Stats::default());
     let failed: RefCell<Option<String>> = RefCell::new(None);
     let counting = Cell::new(true);
@@ -124,6 +153,7 @@ pub fn run_worker<E: Engine>(
             let _ = f.set_len(enc.len() as u64 + 1);
         }
         let o = eng.run(prop, case);
+        progress.fetch_add(1, std::sync::atomic::Ordering::Relaxed);
         // split violations into known findings and fresh ones
         let mut fresh: Vec<&(String, String, String)> = Vec::new();
         let mut st = stats.borrow_mut();
@@ -298,6 +328,7 @@ pub fn run_parent<E: Engine>(eng: &E, cfg: ParentCfg) -> i32 {
     let mut merged = Stats::default();
     let mut failures: Vec<Value> = Vec::new();
     let mut crashed: Vec<(u64, String)> = Vec::new();
+    let mut hangs: Vec<(u64, String)> = Vec::new();
     for (w, out, mut k) in kids {
         let st = k.wait().expect("wait worker");
         let cur = out.with_extension("cur");
@@ -328,6 +359,9 @@ pub fn run_parent<E: Engine>(eng: &E, cfg: ParentCfg) -> i32 {
                 }
                 if !v["failure"].is_null() {
                     failures.push(v["failure"].clone());
+                }
+                if let Some(h) = v["hang"].as_str() {
+                    hangs.push((w, h.to_string()));
                 }
             }
             None => {
@@ -387,6 +421,21 @@ pub fn run_parent<E: Engine>(eng: &E, cfg: ParentCfg) -> i32 {
             code = 1;
         } else {
             lines.push(format!("UNREPRODUCIBLE failure (not reported as a violation): {}", rpath.display()));
+            code = 2;
+        }
+    }
+    if !hangs.is_empty() {
+        let rdir = out_base().join("replays");
+        let _ = std::fs::create_dir_all(&rdir);
+        let rpath = rdir.join(format!("{}-hang-{:016x}.json", cfg.prop, digest(&hangs[0].1)));
+        let rv = json!({"property": cfg.prop, "engine": cfg.engine_name, "tier": cfg.tier, "case": hangs[0].1, "predicate": "hang", "from": "worker watchdog: the case did not return", "violations": []});
+        let _ = std::fs::write(&rpath, serde_json::to_vec_pretty(&rv).unwrap());
+        lines.push(format!(
+            "HANG (inconclusive, not a violation): {} worker(s) stopped making progress; case saved as {}",
+            hangs.len(),
+            rpath.display()
+        ));
+        if code == 0 {
             code = 2;
         }
     }
